@@ -1,10 +1,10 @@
 SPECIFICATION Spec
 CONSTANTS
-  N = 3
-  MaxCalls = 3
-  ArgVals = {0, 1, 2, 3, 4}
+  N = 5
+  MaxCalls = 2
+  ArgVals = {1, 2, 4, 5, 6}
   MaxArgs = 2
   OptSets <- OptSetsMC
 INVARIANTS Commutes Idempotent Ascending
-CONSTRAINT Emit
+CONSTRAINT EmitO
 CHECK_DEADLOCK FALSE
